@@ -155,17 +155,23 @@ class DBHandler:
 
         self.path.parent.mkdir(exist_ok=True, parents=True)
         self.connection = await aiosqlite.connect(self.path)
-        await self.connection.execute("PRAGMA foreign_keys = 1")
+        try:
+            await self.connection.execute("PRAGMA foreign_keys = 1")
 
-        # Allows to read the database in parallel to a scan without causing delays or even losing data
-        # This setting is persistent for the database and leads to the creation of extra files
-        # See https://www.sqlite.org/wal.html for further information
-        await self.connection.execute("PRAGMA journal_mode = WAL")
+            # Allows to read the database in parallel to a scan without causing delays or even losing data
+            # This setting is persistent for the database and leads to the creation of extra files
+            # See https://www.sqlite.org/wal.html for further information
+            await self.connection.execute("PRAGMA journal_mode = WAL")
 
-        await self.connection.execute("PRAGMA busy_timeout = 10000")
+            await self.connection.execute("PRAGMA busy_timeout = 10000")
 
-        await self.connection.executescript(DB_SCHEMA)
-        await self.check_version()
+            await self.connection.executescript(DB_SCHEMA)
+            await self.check_version()
+        except BaseException:
+            # Do not leave a half-opened connection (and its worker thread) behind.
+            await self.connection.close()
+            self.connection = None
+            raise
 
         # This queue is meant to be used for usage-heavy executes that are not time-sensitive, e.g. UDS messages
         self._execute_queue = asyncio.Queue()
